@@ -221,7 +221,7 @@ package cluster
 //@   ensures result != nil && fresh(result)
 
 //@ func (*Agent).memberJoin(member)
-//@   props C18
+//@   props C18 C19
 //@   requires agentInv(a) && member != nil
 //@   nopanic[C18.join.nopanic]
 //@   modifies mapof(a.members.members), mapof(a.kinds), log, loglen
@@ -232,8 +232,12 @@ package cluster
 //@   ensures[C18.join.exactly-one-join-event] log[loglen - 1] == Broadcast(a.cluster.engine, MemberJoinEvent{Member: member}) && (loglen == entry(loglen) + 1 || loglen == entry(loglen) + 2) &&
 //@        (loglen == entry(loglen) + 2 ==> !isJoinEvent(log[entry(loglen)]) && !isLeaveEvent(log[entry(loglen)])) && logPrefix(entry(loglen))
 //@   ensures[C18.join.inv] agentInv(a)
-//@   ghost at entry: kw = arbitrary("(Array Str Int)")
+//@   ghost at entry: kw = arbitrary("(Array Str Int)"); ap = arbitrary("(Array Str Int)")
 //@   ghost at mapupdate#1: kw = store(kw, key, rangeindex)
+//@   ghost at call append#1 before: ap = store(ap, key1, len(actorInfos))
+//@   ghost at call Send#1 before: assert[C19.join.topology-to-the-joiner-lists-every-activation] arg0 == a.cluster.engine && istype(arg2, *ActorTopology) && arg2.(*ActorTopology) != nil &&
+//@        forallS("Str", id, has(a.activated, id) ==> exists(k, 0 <= k && k < len(arg2.(*ActorTopology).Actors) && arg2.(*ActorTopology).Actors[k] != nil && arg2.(*ActorTopology).Actors[k].PID == a.activated[id]))
+//@   ghost at call BroadcastEvent#1 before: assert[C19.join.topology-sent-whenever-something-is-active] len(a.activated) > 0 ==> loglen == entry(loglen) + 1
 //@   loop 1
 //@     invariant rangeindex >= -1 && agentInv(a)
 //@     invariant forall(j, 0 <= j && j <= rangeindex && j < len(member.Kinds) ==> has(a.kinds, member.Kinds[j])) && forallS("Str", k, old(has(a.kinds, k)) ==> has(a.kinds, k))
@@ -242,6 +246,8 @@ package cluster
 //@   loop 2
 //@     invariant[C18.join.l2.inv] agentInv(a)
 //@     invariant[C18.join.l2.fresh] fresh(actorInfos)
+//@     invariant[C19.join.l2.listed] forallS("Str", id, visited1[id] && has(a.activated, id) ==> 0 <= ap[id] && ap[id] < len(actorInfos) && actorInfos[ap[id]] != nil && actorInfos[ap[id]].PID == a.activated[id])
+//@     invariant[C19.join.l2.count] len(actorInfos) == count1 && forall(k, 0 <= k && k < len(actorInfos) ==> actorInfos[k] != nil)
 //@     modifies elements(actorInfos)
 
 //@ func (*Agent).removeActivated(pid)
@@ -343,19 +349,156 @@ package cluster
 //@     invariant[C18.members.l2.only-left-removed] forallS("Str", id, old(has(a.members.members, id)) && !has(a.members.members, id) ==> 0 <= lw[id] && lw[id] <= rangeindex && lw[id] < len(left) && left[lw[id]].ID == id)
 //@     modifies mapof(a.members.members), mapof(a.kinds), mapof(a.activated)
 
-// The agent actor. Only the membership cases are verified here (the
-// precondition restricts the message to a *Members snapshot or a getMembers
-// query); the activation cases are the subject of C19.
+// The agent actor: dispatch of the membership messages (C18) and of the
+// activation messages (C19) to their handlers, with the handler's argument
+// taken unchanged from the message. Started/Stopped/getKinds/getActive are not
+// part of this contract (the precondition excludes them).
 //@ func (*Agent).Receive(c)
-//@   props C18
+//@   props C18 C19
 //@   prune
-//@   requires agentInv(a) && c != nil && engInv(c.engine)
-//@   requires istype(c.message, *Members) || istype(c.message, getMembers)
+//@   requires agentInv(a) && a.localKinds != nil && c != nil && engInv(c.engine)
+//@   requires istype(c.message, *Members) || istype(c.message, getMembers) || istype(c.message, *Activation) || istype(c.message, *Deactivation) || istype(c.message, *ActorTopology) || istype(c.message, *ActivationRequest) || istype(c.message, deactivate)
 //@   requires istype(c.message, *Members) ==> c.message.(*Members) != nil && allNonNil(c.message.(*Members).Members)
-//@   modifies mapof(a.members.members), mapof(a.kinds), mapof(a.activated), log, loglen
+//@   requires istype(c.message, *Activation) ==> c.message.(*Activation) != nil && c.message.(*Activation).PID != nil
+//@   requires istype(c.message, *Deactivation) ==> c.message.(*Deactivation) != nil && c.message.(*Deactivation).PID != nil
+//@   requires istype(c.message, *ActorTopology) ==> c.message.(*ActorTopology) != nil && forall(k, 0 <= k && k < len(c.message.(*ActorTopology).Actors) ==> c.message.(*ActorTopology).Actors[k] != nil && c.message.(*ActorTopology).Actors[k].PID != nil)
+//@   requires istype(c.message, *ActivationRequest) ==> c.message.(*ActivationRequest) != nil
+//@   modifies heap except private, mapof(a.members.members), mapof(a.kinds), mapof(a.activated), log, loglen
 //@   ghost at call handleMembers#1 before: assert[C18.receive.snapshot-handled] arg0 == a && arg1 == c.message.(*Members).Members
 //@   ghost at call Respond#3 before: assert[C18.receive.members-query-answered-with-the-view] arg0 == c && complete(arg1.([]*Member), a.members) &&
 //@        forall(k, 0 <= k && k < len(arg1.([]*Member)) ==> has(a.members.members, arg1.([]*Member)[k].ID) && a.members.members[arg1.([]*Member)[k].ID] == arg1.([]*Member)[k]) && len(arg1.([]*Member)) == len(a.members.members)
+//@   ghost at call handleActivation#1 before: assert[C19.receive.activation] arg0 == a && arg1 == c.message.(*Activation)
+//@   ghost at call handleDeactivation#1 before: assert[C19.receive.deactivation] arg0 == a && arg1 == c.message.(*Deactivation)
+//@   ghost at call handleActorTopology#1 before: assert[C19.receive.topology] arg0 == a && arg1 == c.message.(*ActorTopology)
+//@   ghost at call handleActivationRequest#1 before: assert[C19.receive.activation-request] arg0 == a && arg1 == c.message.(*ActivationRequest)
+//@   ghost at call handleActivationRequest#1: areq = result
+//@   ghost at call Respond#2 before: assert[C19.receive.activation-request-answered] arg0 == c && arg1 == any(areq)
+//@   ghost at call bcast#1 before: assert[C19.receive.deactivate-announced-to-the-cluster] arg0 == a && istype(arg1, *Deactivation) && arg1.(*Deactivation) != nil && arg1.(*Deactivation).PID == c.message.(deactivate).pid
 //@   ensures[C18.receive.view-equals-snapshot] istype(old(c.message), *Members) ==> forallS("Str", id, has(a.members.members, id) ==> exists(j, 0 <= j && j < len(old(c.message).(*Members).Members) && old(c.message).(*Members).Members[j].ID == id)) &&
 //@        forall(j, 0 <= j && j < len(old(c.message).(*Members).Members) ==> has(a.members.members, old(c.message).(*Members).Members[j].ID))
 //@   ensures[C18.receive.query-changes-nothing] istype(old(c.message), getMembers) ==> forallS("Str", id, has(a.members.members, id) == old(has(a.members.members, id)))
+
+// ---------------------------------------------------------------------------
+// Activations (C19, partial): the agent's map id -> PID of the actors known
+// cluster wide, the activation decision, and what a joining member is told.
+
+//@ event Bcast(a Ref as *Agent, msg Iface)
+//@ event LocalActivation(a Ref as *Agent, kind Str, id Str)
+
+//@ functype SelectMemberFunc(details)
+//@   pure
+
+//@ func (*Agent).bcast(msg)
+//@   trusted
+//@   modifies
+//@   emits Bcast(a, msg)
+
+//@ func (*Agent).addActivated(pid)
+//@   props C19
+//@   requires a != nil && a.activated != nil && pid != nil
+//@   modifies mapof(a.activated)
+//@   ensures[C19.activated.added-unless-known] forallS("Str", id, has(a.activated, id) == (old(has(a.activated, id)) || id == pid.ID)) &&
+//@        (old(has(a.activated, pid.ID)) ==> a.activated[pid.ID] == old(a.activated[pid.ID])) && (!old(has(a.activated, pid.ID)) ==> a.activated[pid.ID] == pid) &&
+//@        forallS("Str", id, id != pid.ID ==> a.activated[id] == old(a.activated[id]))
+
+//@ func (*Agent).hasKindLocal(name)
+//@   props C19
+//@   requires a != nil
+//@   modifies
+//@   ensures[C19.haskindlocal] result == has(a.localKinds, name)
+
+//@ func (*Agent).handleActivation(msg)
+//@   props C19
+//@   requires agentInv(a) && msg != nil && msg.PID != nil
+//@   modifies mapof(a.activated), log, loglen
+//@   ensures[C19.on-activation.recorded-unless-known] has(a.activated, msg.PID.ID) && (old(has(a.activated, msg.PID.ID)) ==> a.activated[msg.PID.ID] == old(a.activated[msg.PID.ID])) && (!old(has(a.activated, msg.PID.ID)) ==> a.activated[msg.PID.ID] == msg.PID) &&
+//@        forallS("Str", id, id != msg.PID.ID ==> has(a.activated, id) == old(has(a.activated, id)) && a.activated[id] == old(a.activated[id]))
+//@   ensures[C19.on-activation.event] loglen == entry(loglen) + 1 && log[entry(loglen)] == Broadcast(a.cluster.engine, ActivationEvent{PID: msg.PID})
+
+//@ func (*Agent).handleDeactivation(msg)
+//@   props C19
+//@   requires agentInv(a) && msg != nil && msg.PID != nil
+//@   modifies mapof(a.activated), log, loglen
+//@   ensures[C19.on-deactivation.forgotten] forallS("Str", id, has(a.activated, id) == (old(has(a.activated, id)) && id != msg.PID.ID)) && forallS("Str", id, a.activated[id] == old(a.activated[id]))
+//@   ensures[C19.on-deactivation.actor-poisoned-and-event] loglen == entry(loglen) + 2 && isev(log[entry(loglen)], PoisonSent) && log[entry(loglen)].PoisonSent_e == a.cluster.engine && log[entry(loglen)].PoisonSent_pid == msg.PID &&
+//@        log[entry(loglen) + 1] == Broadcast(a.cluster.engine, DeactivationEvent{PID: msg.PID})
+
+//@ func (*Agent).handleActorTopology(msg)
+//@   props C19
+//@   requires agentInv(a) && msg != nil && forall(k, 0 <= k && k < len(msg.Actors) ==> msg.Actors[k] != nil && msg.Actors[k].PID != nil)
+//@   modifies mapof(a.activated)
+//@   ghost at entry: tw = arbitrary("(Array Str Int)")
+//@   ghost at call addActivated#1: tw = store(tw, actorInfo.PID.ID, rangeindex)
+//@   ensures[C19.on-topology.all-recorded] forall(k, 0 <= k && k < len(msg.Actors) ==> has(a.activated, msg.Actors[k].PID.ID))
+//@   ensures[C19.on-topology.known-ids-keep-their-pid] forallS("Str", id, old(has(a.activated, id)) ==> has(a.activated, id) && a.activated[id] == old(a.activated[id]))
+//@   ensures[C19.on-topology.nothing-else] forallS("Str", id, has(a.activated, id) && !old(has(a.activated, id)) ==> exists(k, 0 <= k && k < len(msg.Actors) && msg.Actors[k].PID.ID == id))
+//@   loop 1
+//@     invariant rangeindex >= -1 && a != nil && a.activated != nil
+//@     invariant forall(k, 0 <= k && k <= rangeindex && k < len(msg.Actors) ==> has(a.activated, msg.Actors[k].PID.ID))
+//@     invariant forallS("Str", id, old(has(a.activated, id)) ==> has(a.activated, id) && a.activated[id] == old(a.activated[id]))
+//@     invariant forallS("Str", id, has(a.activated, id) && !old(has(a.activated, id)) ==> 0 <= tw[id] && tw[id] <= rangeindex && tw[id] < len(msg.Actors) && msg.Actors[tw[id]].PID.ID == id)
+//@     modifies mapof(a.activated)
+
+// An activation request: spawned here only if the kind is registered on this
+// node, under exactly the requested kind and id.
+//@ func (*Agent).handleActivationRequest(msg)
+//@   props C19
+//@   requires agentInv(a) && msg != nil && a.localKinds != nil
+//@   modifies heap except private, log, loglen
+//@   ghost at call Spawn#1 before: assert[C19.request.spawns-the-registered-producer-under-kind-and-id] arg0 == a.cluster.engine && has(a.localKinds, msg.Kind) && arg1 == a.localKinds[msg.Kind].producer && arg2 == msg.Kind
+//@   ghost at call Spawn#1: spawnedPID = result
+//@   ghost at call WithID#1 before: assert[C19.request.with-the-requested-id] arg0 == msg.ID
+//@   ensures[C19.request.refused-when-kind-not-local] !old(has(a.localKinds, msg.Kind)) ==> result != nil && !result.Success && loglen == entry(loglen)
+//@   ensures[C19.request.success-carries-the-pid] old(has(a.localKinds, msg.Kind)) ==> result != nil && result.Success && result.PID != nil
+
+//@ pred advertises(m, kind) := exists(j, 0 <= j && j < len(m.Kinds) && m.Kinds[j] == kind)
+
+//@ func (*Member).HasKind(kind)
+//@   props C19
+//@   requires m != nil
+//@   modifies
+//@   ensures[C19.haskind] (result ==> advertises(m, kind)) && (!result ==> forall(j, 0 <= j && j < len(m.Kinds) ==> m.Kinds[j] != kind))
+//@   loop 1
+//@     invariant rangeindex >= -1 && forall(j, 0 <= j && j <= rangeindex && j < len(m.Kinds) ==> m.Kinds[j] != kind)
+
+//@ func (*MemberSet).FilterByKind(kind)
+//@   props C19
+//@   requires msInv(s)
+//@   modifies
+//@   ghost at entry: pos = arbitrary("(Array Str Int)")
+//@   ghost at call append#1 before: pos = store(pos, member.ID, len(members))
+//@   ensures[C19.filter.only-capable-members] forall(k, 0 <= k && k < len(result) ==> result[k] != nil && has(s.members, result[k].ID) && s.members[result[k].ID] == result[k] && advertises(result[k], kind))
+//@   ensures[C19.filter.every-capable-member] forallS("Str", id, has(s.members, id) && advertises(s.members[id], kind) ==> exists(k, 0 <= k && k < len(result) && result[k] == s.members[id]))
+//@   loop 1
+//@     invariant msInv(s) && fresh(members)
+//@     invariant forall(k, 0 <= k && k < len(members) ==> members[k] != nil && has(s.members, members[k].ID) && s.members[members[k].ID] == members[k] && advertises(members[k], kind))
+//@     invariant forallS("Str", id, visited1[id] && has(s.members, id) && advertises(s.members[id], kind) ==> 0 <= pos[id] && pos[id] < len(members) && members[pos[id]] == s.members[id])
+//@     modifies elements(members)
+
+// activate: nothing happens for an id the cluster already knows, when no
+// member advertises the kind, or when the select function declines; otherwise
+// exactly one activation request for exactly (kind, id) goes to the selected
+// member (handled locally when that member is this node), and the resulting
+// PID is announced to the cluster and returned.
+//@ func (*Agent).activate(kind, config)
+//@   props C19
+//@   requires agentInv(a) && a.localKinds != nil && a.cluster.engine != nil
+//@   modifies heap except private, mapof(a.cluster.engine.Registry.lookup), log, loglen
+//@   ghost at call Result#1: assume[C19.reply-is-not-a-typed-nil] !(istype(result0, *ActivationResponse) && result0.(*ActivationResponse) == nil)
+//@   ghost at return#1: assert[C19.activate.known-id-returns-nil-and-does-nothing] old(has(a.activated, kind + "/" + config.id)) && result == nil && loglen == entry(loglen)
+//@   ghost at return#2: assert[C19.activate.no-capable-member-returns-nil-and-does-nothing] result == nil && loglen == entry(loglen) && forallS("Str", id, has(a.members.members, id) ==> !advertises(a.members.members[id], kind))
+//@   ghost at return#3: assert[C19.activate.select-declined-returns-nil-and-does-nothing] result == nil && loglen == entry(loglen)
+//@   ghost at call handleActivationRequest#1 before: assert[C19.activate.local-request-for-kind-and-id] arg0 == a && memberPID.Host == a.cluster.engine.address && arg1 != nil && arg1.Kind == kind && arg1.ID == config.id && loglen == entry(loglen)
+//@   ghost at call Request#1 before: assert[C19.activate.remote-request-to-the-selected-members-agent] arg0 == a.cluster.engine && memberPID.Host != a.cluster.engine.address && arg1.Address == memberPID.Host && arg1.ID == "cluster/" + memberPID.ID &&
+//@        istype(arg2, *ActivationRequest) && arg2.(*ActivationRequest).Kind == kind && arg2.(*ActivationRequest).ID == config.id && loglen == entry(loglen)
+//@   ghost at call bcast#1 before: assert[C19.activate.announces-the-new-pid] arg0 == a && istype(arg1, *Activation) && arg1.(*Activation) != nil && arg1.(*Activation).PID == activationResp.PID && !old(has(a.activated, kind + "/" + config.id))
+//@   ghost at return#4: assert[C19.activate.returns-the-activated-pid] result == activationResp.PID
+
+//@ func (*Agent).handleGetActive(c, msg)
+//@   props C19
+//@   requires agentInv(a) && c != nil && engInv(c.engine)
+//@   modifies log, loglen
+//@   ghost at call Respond#1 before: assert[C19.getactive.by-id] arg0 == c && len(msg.id) > 0 && arg1 == any(ite(has(a.activated, msg.id), a.activated[msg.id], nilof("*actor.PID")))
+//@   loop 1
+//@     invariant fresh(pids) && agentInv(a) && c != nil && engInv(c.engine)
+//@     modifies elements(pids)
